@@ -108,6 +108,9 @@ contract(F + "Munkres.__find_smallest", props=["C06"], consts={'DISALLOWED': 'se
             "forall(range(0, K), lambda a: forall(range(self.n), lambda b: implies(not self.row_covered[a] and not self.col_covered[b], minval <= self.C[a][b])))"]),
         "for j in range(self.n)": dict(invariant=[
             "is_number(minval) and minval <= 9223372036854775807 and is_int(i) and 0 <= i and i < self.n",
+            # (ground facts about the current row and the covers: they keep the path queries of the loop body quantifier-free, so that the verdict does not depend on solver timing)
+            "is_list(self.C) and is_list(self.C[i]) and allocated(self.C[i]) and len(self.C[i]) == self.n and is_list(self.row_covered) and is_list(self.col_covered) "
+            "and len(self.row_covered) == self.n and len(self.col_covered) == self.n and is_bool(self.row_covered[i])",
             "forall(range(0, i), lambda a: forall(range(self.n), lambda b: implies(not self.row_covered[a] and not self.col_covered[b], minval <= self.C[a][b])))",
             "forall(range(0, K), lambda b: implies(not self.row_covered[i] and not self.col_covered[b], minval <= self.C[i][b]))"])})
 
